@@ -52,7 +52,7 @@ func glueRun(bits int, exit string, hist []int) string {
 	case "ctx":
 		cancel()
 	case "kill":
-		run.p.Kill()
+		killNow(run.p)
 	}
 	if !run.wait(5 * time.Second) {
 		return "hang"
